@@ -144,6 +144,9 @@ func ZZ_C11_gc_cr_podenis() {
 			deleting = true
 		}
 		zz.Assert(len(w.podENI.Spec.Allocations) == n, "the collector never edits the allocations of a record")
+		// the release verdict was formed on a listed snapshot: it must be written with the snapshot's
+		// resourceVersion (status update), so that it is rejected when the record was rebound meanwhile
+		zz.Assert(w.kind != "status-patch" || w.podENI.Status.Phase == podENI.Status.Phase, "a phase change decided by the collector is written with a conflict-checked update, never with an unconditional patch")
 	}
 	podPresent := cl.podErr == 0 && requires
 	if cl.podErr == 2 {
